@@ -23,6 +23,13 @@ from ref import pairings as refp
 
 PROP = "C14"
 LEAN_MODULE = "Props.C14"
+
+
+def extract(ctx):
+    """regenerate the member-name tables of the state file (and the protocol constants the shared driver imports)"""
+    c06.extract(ctx)
+
+
 TRUSTED = [
     "Lean 4.33 kernel; axioms propext, Classical.choice, Quot.sound only (audited by #print axioms)",
     "hand-written model lean/HapModel/Encoder.lean of AccessoryEncoder.persist/load_into over the JSON document "
@@ -36,6 +43,10 @@ TRUSTED = [
     "files written by the implementation are opaque to the oracle (state before save == state after load + observables); "
     "legacy / respelled documents are authored by the harness in the historical format of the snapshot release (str(UUID) keys, "
     "hex strings, {\"permissions\": n}); the file-tree comparison with the model's document is correspondence only",
+    "member names of the state file: lean/HapModel/Gen/EncoderFields.lean is regenerated on every run by probing persist / load_into "
+    "of the tree under check with sentinel values (extract/encoder_fields.py); C14_field_names / C14_roundtrip_file are stated over it; "
+    "whole-life stream: histories over the model's full alphabet (hstep: pair-setup, real pair-verify exchanges, POST /pairings, "
+    "config_changed, hash update, restart through the real state file) where the MODEL predicts the state after every restart",
     "multi-save stream: one real driver per history, driver.async_persist replaced by a synchronous call of the real "
     "driver.persist; the model side of that stream is persist/load of the in-memory state at each save (C14_history_roundtrip); "
     "whether and when the driver writes the file is otherwise C15's concern",
@@ -717,6 +728,77 @@ def run_histories(ctx: Ctx):
                "saves_checked": sum(1 for _ in all_lines)})
 
 
+# ----------------------------------------------------------------------------- whole-life histories
+#
+# The histories of c06.whole_life_scripts (real sessions + config_changed + hash updates + restarts through the real
+# state file), judged by C14's statement: a restart gives back exactly the state of the moment before it, and the
+# Lean model (`hstep .restart` = loadJ (persistJ acc)) predicts the loaded state.
+
+
+def run_life_case(ops, start):
+    fails = []
+
+    def on_restart(i, before, after):
+        if fails:
+            return
+        if after is None:
+            fails.append(("C14:load-failed", f"restart at step {i}: loading the state file the accessory had just saved raised", i))
+            return
+        dv0, dv1 = dict_view(before), dict_view(after)
+        diff = [f for f in dv0 if dv0[f] != dv1[f]]
+        if diff:
+            fails.append(("C14:restart-state-differs:" + diff[0], f"restart at step {i}: the reloaded {diff} differ from the state before the restart "
+                          f"({len(before['paired'])} controllers, config_version {before['config_version']})", i))
+
+    ident, steps, _v, _abst, init = c06.run_real_sessions(ops, judge=False, start=start, on_restart=on_restart)
+    return ident, steps, init, (fails[0] if fails else None)
+
+
+def run_whole_life(ctx: Ctx):
+    st = ctx.stats
+    cases = c06.whole_life_scripts(ctx)
+    st.notes.append(f"whole-life stream: {len(cases)} histories (pairing administration on real sessions, config_changed, hash updates, "
+                    "restarts through the real state file, legacy starts); restart judged by 'state before == state after', model predicts the loaded state")
+    lines, impl, scripts = [], [], []
+    for ops, start in cases:
+        try:
+            ident, steps, init, fail = run_life_case(ops, start)
+        except Exception as ex:  # noqa: BLE001
+            _observed_exception(ctx, "whole-life", {"ops": [o["k"] for o in ops]}, ex)
+            continue
+        scripts.append(ops)
+        lines.append(c06.sessions_model_line(ops, ident, init))
+        impl.append(steps)
+        if fail:
+            sig = fail[0]
+            cut = ops[: fail[2] + 1]
+
+            def still(cand, sig=sig, start=start):
+                try:
+                    f = run_life_case(cand, start)[3]
+                    return f is not None and f[0] == sig
+                except Exception:  # noqa: BLE001
+                    return False
+
+            small = c06.delta_min(cut, still)
+            f2 = run_life_case(small, start)[3]
+            ctx.fail(sig, (f2[1] if f2 and f2[0] == sig else fail[1]) + f" [whole-life history of {len(small)} step(s)]",
+                     {"kind": "life", "ops": small, "start": start})
+            st.hit("outcome", "oracle:" + sig)
+        tr = []
+        for op, s_ in zip(ops, steps):
+            st.hit("op", "life-" + op["k"])
+            if op["k"] == "restart":
+                st.hit("outcome", "life-restart/" + ("state-identical-checked" if s_.get("restarted") else "load-failed"))
+                tr.append(["restart", s_.get("restarted"), len(s_.get("acc", {}).get("paired", [])), len(s_.get("acc", {}).get("u2b", []))])
+            elif op["k"] in ("config", "hash"):
+                tr.append([op["k"], s_.get("wrote"), min(s_["acc"]["config_version"], 3)])
+            else:
+                tr.append([op["k"], len(s_["state"]["paired"]), s_.get("wrote")])
+        st.case(["life", tr], True)
+    c06.compare_sessions(ctx, "C14", scripts, lines, impl)
+
+
 # ----------------------------------------------------------------------------- entry points
 
 
@@ -805,6 +887,7 @@ def run(ctx: Ctx):
         if m != impl:
             ctx.disagree("encoder/load-document", {"doc": _short(ln["doc"])}, _short(m), _short(impl))
     run_histories(ctx)
+    run_whole_life(ctx)
     if len(lines) > 1:
         st.sample({"state": _short_state(lines[1]["state"]), "file_tree": _short(impls[1]["doc"]), "model_agrees": canon_model_roundtrip(model[1]) == {k: impls[1][k] for k in ("doc", "loaded")}})
         st.sample({"state": _short_state(lines[-1]["state"]), "pair_verify_before_after": impls[-1].get("pair_verify"),
@@ -859,6 +942,13 @@ def search(ctx: Ctx):
                 continue
             if fail:
                 record_history_failure(ctx, ops, fail)
+        for ops, start in c06.whole_life_scripts(ctx):
+            try:
+                fail = run_life_case(ops, start)[3]
+            except Exception:  # noqa: BLE001
+                continue
+            if fail:
+                ctx.fail(fail[0], fail[1], {"kind": "life", "ops": ops[: fail[2] + 1], "start": start})
     finally:
         ctx.tier = saved
 
@@ -873,6 +963,12 @@ def replay(ctx: Ctx, r):
         for op, t in zip(r["ops"], trace):
             desc = {k: (v if not isinstance(v, str) or len(v) < 24 else bytes.fromhex(v).decode(errors="replace") if k == "id" else v[:16] + "...") for k, v in op.items()}
             print(f"  {desc} -> save {'completed, file checked by a fresh load' if t[1] else 'not requested'}; controllers={t[2]} recorded ids={t[3]}")
+        fail = fail[:2] if fail else None
+    elif r.get("kind") == "life":
+        _ident, steps, _init, fail = run_life_case(r["ops"], r.get("start"))
+        for op, s_ in zip(r["ops"], steps):
+            what = {k: (v if not isinstance(v, str) or len(v) < 24 else v[:16] + "...") for k, v in op.items()}
+            print(f"  {what} -> " + (f"restarted={s_.get('restarted')}" if op["k"] == "restart" else f"controllers={len((s_.get('state') or s_.get('acc'))['paired'])}"))
         fail = fail[:2] if fail else None
     elif r.get("kind") == "doc":
         line, impl, fail = run_doc_case(r["doc"], r.get("doc_kind", "damaged"), r.get("expected"))
